@@ -1,7 +1,10 @@
 PROPERTY = "C12"
 LEVEL = "proof"
 LEAN_MODULES = ["CifModel.Props.C12", "CifModel.Lemmas.ParserTop", "CifModel.Props.C12Lex", "CifModel.Props.C12Scan", "CifModel.Props.ReviewC12",
-                "CifModel.Lemmas.ParserReach", "CifModel.Lemmas.DefectChars", "CifModel.Props.C12Chars"]
+                "CifModel.Lemmas.ParserReach", "CifModel.Lemmas.DefectChars", "CifModel.Props.C12Chars",
+                # group gW: segments of the element loop, two defects, save frames, abort-on-error handler
+                "CifModel.Lemmas.ParserDefectSeg", "CifModel.Lemmas.DefectCharsSeg", "CifModel.Lemmas.ParserDefectDie",
+                "CifModel.Props.C12Two", "CifModel.Props.C12Frames", "CifModel.Props.C12Die"]
 REQUIRED = ["CifModel.C12_clean", "CifModel.C12_first_report_is_policy_free", "CifModel.C12_missing_value_instance",
             "CifModel.C12_unexpected_value_instance", "CifModel.C12_dup_scalar_instance", "CifModel.C12_dup_loop_header_instance",
             "CifModel.C12_partial_packet_instance", "CifModel.C12_empty_and_null_loop_instance", "CifModel.C12_no_block_header_instance",
@@ -53,7 +56,39 @@ REQUIRED = ["CifModel.C12_clean", "CifModel.C12_first_report_is_policy_free", "C
             "CifModel.C12_frame_not_allowed_at", "CifModel.C12_null_loop_at", "CifModel.C12_invalid_itemname_at",
             "CifModel.C12_invalid_framecode_at", "CifModel.C12_dup_framecode_at", "CifModel.C12_invalid_blockcode_at",
             "CifModel.C12_dup_blockcode_at", "CifModel.C12_eof_in_frame_at", "CifModel.C12_no_frame_term_at",
-            "CifModel.C12_frame_nesting_depth_at"]
+            "CifModel.C12_frame_nesting_depth_at",
+            # group gW — segments, composition (Props/C12Two, Lemmas/ParserDefectSeg)
+            "CifModel.Model.Parser.Seg.comp", "CifModel.Model.Parser.Seg.frame", "CifModel.Model.Parser.Seg.level",
+            "CifModel.Model.Parser.Seg.elems", "CifModel.Model.Parser.Seg.one", "CifModel.Model.Parser.Seg.one_inv",
+            "CifModel.C12_seg_missing_value", "CifModel.C12_seg_unexpected_value", "CifModel.C12_seg_dup_itemname",
+            "CifModel.C12_seg_invalid_itemname", "CifModel.C12_seg_unexpected_delim", "CifModel.C12_seg_partial_packet",
+            "CifModel.C12_seg_dup_header_name", "CifModel.C12_seg_missing_delim_list", "CifModel.C12_seg_null_key",
+            "CifModel.C12_seg_missing_key", "CifModel.C12_seg_table_missing_value",
+            "CifModel.C12_defects_compose", "CifModel.C12_two_defects", "CifModel.C12_two_defects_missing_value_dup_itemname",
+            # character level: any segment, save frames (one and two levels), two defects (Props/C12Frames, Lemmas/DefectCharsSeg)
+            "CifModel.Lemmas.DefectChars.block_segs_run", "CifModel.Lemmas.DefectChars.block_segs_chars",
+            "CifModel.Lemmas.DefectChars.repsAt_lines",
+            "CifModel.Props.C12_chars_segment", "CifModel.Props.C12_chars_in_frame", "CifModel.Props.C12_chars_items_in_frame",
+            "CifModel.Props.C12_chars_missing_value_in_frame", "CifModel.Props.C12_chars_unexpected_value_in_frame",
+            "CifModel.Props.C12_chars_dup_itemname_in_frame", "CifModel.Props.C12_chars_invalid_itemname_in_frame",
+            "CifModel.Props.C12_chars_partial_packet_in_frame", "CifModel.Props.C12_chars_in_nested_frame",
+            "CifModel.Props.C12_chars_two_defects", "CifModel.Props.C12_chars_missing_value_then_dup_itemname",
+            "CifModel.Props.Reports.one", "CifModel.Props.Reports.two",
+            "CifModel.Props.C12Frames.C12_chars_missing_value_in_frame_instance", "CifModel.Props.C12Frames.C12_frames_instance_lines",
+            "CifModel.Props.C12Frames.C12_chars_two_defects_instance", "CifModel.Props.C12Frames.C12_two_defects_instance_lines",
+            "CifModel.Props.C12Frames.C12_chars_in_nested_frame_instance",
+            # abort-on-error handler with content (Props/C12Die, Lemmas/ParserDefectDie)
+            "CifModel.Model.Parser.DieSeg.after_elems", "CifModel.Model.Parser.DieSeg.after_items", "CifModel.Model.Parser.DieSeg.frame",
+            "CifModel.Model.Parser.die_missing_value", "CifModel.Model.Parser.die_unexpected_value",
+            "CifModel.Model.Parser.die_dup_itemname", "CifModel.Model.Parser.die_invalid_itemname",
+            "CifModel.Model.Parser.die_unexpected_delim", "CifModel.Model.Parser.die_unexpected_term",
+            "CifModel.Lemmas.DefectChars.block_die_run", "CifModel.Lemmas.DefectChars.block_die_chars",
+            "CifModel.Props.C12_die_segment", "CifModel.Props.C12_die_items", "CifModel.Props.C12_die_items_in_frame",
+            "CifModel.Props.C12_die_missing_value", "CifModel.Props.C12_die_unexpected_value", "CifModel.Props.C12_die_dup_itemname",
+            "CifModel.Props.C12_die_invalid_itemname", "CifModel.Props.C12_die_unexpected_delim", "CifModel.Props.C12_die_unexpected_term",
+            "CifModel.Props.C12_die_missing_value_in_frame", "CifModel.Props.C12_die_dup_itemname_in_frame",
+            "CifModel.Props.C12_die_unexpected_value_in_frame", "CifModel.Props.C12_die_invalid_itemname_in_frame",
+            "CifModel.Props.C12Die.C12_die_missing_value_instance", "CifModel.Props.C12Die.C12_die_missing_value_in_frame_instance"]
 GEN = ["ErrCodes", "CharClass", "ParseConsts"]
 FAMILIES = ["defect"]
 TRUSTED_BASE = [
